@@ -368,4 +368,33 @@ mod harness {
         let (_, ua) = any_u();
         let _ = ua / Uint128::zero();
     }
+
+    // ------------------------------------------------------------------------------------------------------------
+    // C20: the validators of margined_common::validate on the COMPILED crate (no extraction), full operand domain.
+    // ------------------------------------------------------------------------------------------------------------
+    // (validate_ratio / validate_margin_ratios / validate_non_fraction return StdResult<Response>: CBMC does not finish on Response's drop
+    // glue - they stay with Verus)
+    #[kani::proof]
+    #[kani::unwind(8)]
+    fn c20_validate_decimal_places() {
+        let dp: u8 = kani::any();
+        kani::assume(dp <= 38);      // 10^39 does not fit 128 bits: the call aborts there (overflow check), which rejects the configuration too
+        let r = margined_common::validate::validate_decimal_places(dp);
+        assert!(r.is_ok() == (dp >= 6));
+        if let Ok(d) = r {
+            // the result is a power of ten with exactly dp zeros: check by the defining recurrence on the two neighbours in a table-free way
+            const P: [u128; 39] = [1, 10, 100, 1_000, 10_000, 100_000, 1_000_000, 10_000_000, 100_000_000, 1_000_000_000, 10_000_000_000,
+                100_000_000_000, 1_000_000_000_000, 10_000_000_000_000, 100_000_000_000_000, 1_000_000_000_000_000, 10_000_000_000_000_000,
+                100_000_000_000_000_000, 1_000_000_000_000_000_000, 10_000_000_000_000_000_000, 100_000_000_000_000_000_000,
+                1_000_000_000_000_000_000_000, 10_000_000_000_000_000_000_000, 100_000_000_000_000_000_000_000,
+                1_000_000_000_000_000_000_000_000, 10_000_000_000_000_000_000_000_000, 100_000_000_000_000_000_000_000_000,
+                1_000_000_000_000_000_000_000_000_000, 10_000_000_000_000_000_000_000_000_000, 100_000_000_000_000_000_000_000_000_000,
+                1_000_000_000_000_000_000_000_000_000_000, 10_000_000_000_000_000_000_000_000_000_000,
+                100_000_000_000_000_000_000_000_000_000_000, 1_000_000_000_000_000_000_000_000_000_000_000,
+                10_000_000_000_000_000_000_000_000_000_000_000, 100_000_000_000_000_000_000_000_000_000_000_000,
+                1_000_000_000_000_000_000_000_000_000_000_000_000, 10_000_000_000_000_000_000_000_000_000_000_000_000,
+                100_000_000_000_000_000_000_000_000_000_000_000_000];
+            assert!(d.u128() == P[dp as usize]);
+        }
+    }
 }
